@@ -38,13 +38,36 @@ TrBad(e, name) ==
     /\ bad' = Flag("C10", FALSE, name)
     /\ UNCHANGED lastH
 
+(* a replica that joined by state sync (snapshot served by another replica, chunks in any order, possibly after a corrupted copy  *)
+(* or with duplicates) and then executed the blocks decided since: same application hash at every height (C01), the restored     *)
+(* state is the snapshot's (C12 at the consensus level), a corrupted chunk is never accepted, nothing panics (C10)               *)
+SeqSet(s) == {s[i] : i \in DOMAIN s}
+TrSync ==
+    /\ l <= Len(Trace) /\ Ev.ev = "statesync" /\ l' = l + 1
+    /\ LET e == Ev
+           problem == "problem" \in DOMAIN e
+           panicked == "panic" \in DOMAIN e
+           accepted == e.offer = "ACCEPT"
+           res == IF "results" \in DOMAIN e THEN SeqSet(e.results) ELSE {}
+       IN bad' = IF bad # "none" \/ problem THEN bad
+                 ELSE IF "C10" \in Props /\ panicked THEN "C10: state sync or catching up panicked"
+                 ELSE IF "C01" \in Props /\ ~accepted THEN "C01: a snapshot of a decided height offered with its application hash was not accepted"
+                 ELSE IF "C01" \in Props /\ "corrupt:ACCEPT" \in res THEN "C01: a corrupted snapshot chunk was accepted"
+                 ELSE IF "C01" \in Props /\ \E r \in res : r \notin {"ACCEPT", "dup:ACCEPT", "corrupt:RETRY", "corrupt:REJECT_SNAPSHOT"}
+                      THEN "C01: a genuine snapshot chunk was refused"
+                 ELSE IF "C01" \in Props /\ ~panicked /\ (e.restored_height # e.snapshot \/ ~e.restored_app_ok)
+                      THEN "C01: the state restored from the snapshot is not the snapshot's state"
+                 ELSE IF "C01" \in Props /\ ~panicked /\ ~e.agree THEN "C01: a replica that joined by state sync computes another state than the others"
+                 ELSE "none"
+    /\ UNCHANGED lastH
+
 TrChain == l <= Len(Trace) /\ Ev.ev = "begin_chain" /\ l' = l + 1 /\ lastH' = 0 /\ UNCHANGED bad
 
-Known == {"agree", "panic", "reject", "prepare_failed", "begin_chain"}
+Known == {"agree", "panic", "reject", "prepare_failed", "begin_chain", "statesync"}
 TrSkip == l <= Len(Trace) /\ Ev.ev \notin Known /\ l' = l + 1 /\ UNCHANGED <<bad, lastH>>
 
 TraceNext ==
-    \/ TrAgree \/ TrChain \/ TrSkip
+    \/ TrAgree \/ TrChain \/ TrSkip \/ TrSync
     \/ TrBad("panic", "block execution panicked")
     \/ TrBad("reject", "an honestly built proposal was rejected")
     \/ TrBad("prepare_failed", "PrepareProposal could not build a block from the submitted transactions")
